@@ -64,6 +64,20 @@ class DumperBase(DataStreamProcessor):
         file_name = os.path.basename(path)
         descriptor['path'] = os.path.join(dir_name, hash, file_name)
 
+    def process_datapackage(self, datapackage):
+        datapackage = super(DumperBase, self).process_datapackage(datapackage)
+        # Counters describe this dump only: restart counts carried over from an earlier dump
+        descriptor = datapackage.descriptor
+        stale = [(descriptor, prop) for prop in (self.datapackage_rowcount, self.datapackage_bytes)]
+        for resource in descriptor.get('resources', []):
+            stale.extend((resource, prop) for prop in (self.resource_rowcount, self.resource_bytes))
+        stale = [(obj, prop) for obj, prop in stale if DumperBase.get_attr(obj, prop) is not None]
+        for obj, prop in stale:
+            DumperBase.set_attr(obj, prop, 0)
+        if stale:
+            datapackage.commit()
+        return datapackage
+
     def row_counter(self, resource, iterator):
         counter = 0
         for row in iterator:
